@@ -61,8 +61,17 @@ class Skeletons:
         for h, line in cands:
             for s in h['steps']:
                 # inlined steps (updateConfig <- reconfigure) carry the callee's lines: only match in the callee itself
-                if s['line'] <= line <= s['end'] and s['kind'] != 'Spawn' and not s.get('why', '').startswith('inlined '):
-                    return h, line, (False if s['kind'] == 'Lock' else s['held'])
+                if not (s['line'] <= line <= s['end']) or s.get('why', '').startswith('inlined '):
+                    continue
+                if s['kind'] == 'Spawn':
+                    # a frame inside the body of a goroutine started by the handler: the goroutine's own lock state counts
+                    for b in s.get('body', []):
+                        if b['line'] <= line <= b['end']:
+                            return h, line, (False if b['kind'] == 'Lock' else b['held'])
+                    if s['line'] < line:      # (the go statement itself is the handler's, the rest is the goroutine's)
+                        return h, line, False
+                    continue
+                return h, line, (False if s['kind'] == 'Lock' else s['held'])
         if cands:
             h, line = cands[-1]
             held = False     # the state after the last non-deferred step above the line
